@@ -1656,6 +1656,12 @@ class _ExprNorm(ast.NodeTransformer):
 
     def visit_BinOp(self, node):
         self.generic_visit(node)
+        # n + isinstance(x, K)  ->  n + int(isinstance(x, K))      (a truth value used as a number is 0 / 1)
+        if isinstance(node.op, (ast.Add, ast.Sub)):
+            for side in ("left", "right"):
+                v_ = getattr(node, side)
+                if isinstance(v_, ast.Call) and isinstance(v_.func, ast.Name) and v_.func.id == "isinstance" and len(v_.args) == 2:
+                    setattr(node, side, ast.copy_location(ast.Call(func=ast.Name(id="int", ctx=ast.Load()), args=[v_], keywords=[]), v_))
         # integer literals fold: 8 + 1 -> 9, 64 | 1 -> 65
         if isinstance(node.left, ast.Constant) and isinstance(node.right, ast.Constant) and type(node.left.value) is int and type(node.right.value) is int:
             a_, b_ = node.left.value, node.right.value
